@@ -50,7 +50,7 @@ class Exec:
         self.missing = C.apply_cache_knobs(knobs)
 
     def live(self):
-        return [i for i, s in enumerate(self.slots) if s is not None]
+        return [i for i, s in enumerate(self.slots) if W.is_url(s)]
 
     def step(self, op):
         name = op["op"]
